@@ -13,8 +13,8 @@ use std::path::Path;
 const ALPHABET: [char; 9] = ['{', '}', '(', ')', '<', '>', ',', 'a', ' '];
 pub const HEADER: &str = "From Coq Require Import List NArith String.\nFrom V Require Import Base.Util Corr.RunC15.\nImport ListNotations. Open Scope string_scope.";
 pub const EVALS: [(&str, &str); 4] = [
+    ("hyp_nested", "hyp_nested"),
     ("corr_exact", "corr_exact"),
-    ("corr_stream", "corr_stream"),
     ("prop_ws", "prop_ws"),
     ("prop_discipline", "prop_discipline"),
 ];
